@@ -1,0 +1,11 @@
+//go:build verif
+
+package metadata
+
+// Merge builds a fresh map from its two operands with mergo; mergo.Merge only fails for a destination that is not a
+// pointer or for operands of different types, neither of which can happen here, so the panic on its error is
+// unreachable (assumed: mergo is library code).
+//@ func (metadata.Metadata).Merge
+//@   ensures ret != nil
+//@   modifies map[string]string
+//@   trusted mergo.Merge(&ret, m, WithOverride) on two maps of the same type returns nil
